@@ -110,15 +110,22 @@ def general_reads(n, rng=None):
               [None, None, 0], [0, n, 1], [-1, -n - 1, -1], [None, None, 3]]
     items = [-1, -n, -n - 1]
     if rng and n:
-        for _ in range(4):
+        for _ in range(2):
             slices.append([rng.choice([None, rng.randrange(-n - 2, n + 3)]), rng.choice([None, rng.randrange(-n - 2, n + 3)]),
                            rng.choice([None, 1, 2, 3, -1, -2, -3, rng.randrange(1, n + 2), -rng.randrange(1, n + 2)])])
-        items += [-rng.randrange(1, n + 1) for _ in range(2)]
+        items += [-rng.randrange(1, n + 1)]
     out = []
     for sl in slices:
         if sl not in out:
             out.append(sl)
-    return out, sorted(set(items))
+    # a rotating window of the fixed shapes per case (every shape is read on every field of the exhaustive reader cases)
+    _ROT[0] += 1
+    k = _ROT[0]
+    fixed = [out[(k * 3 + j) % 19] for j in range(3)] if len(out) >= 19 else out
+    return [x for i, x in enumerate(out) if x in fixed or i >= 19], sorted(set([items[k % 3]] + items[3:]))
+
+
+_ROT = [0]
 
 
 def all_reads(n, steps=(None, 1, 2, 3, -1, -2, -3, 0)):
@@ -152,6 +159,8 @@ def mk_indexed(c, h5, parts, rng=None, write=False, tag=None, rounds=None, rewra
     n = sum(len(p) for p in parts)
     slices, items = reads if reads else reads_for(n, rng)
     case = {"op": "c01_indexed", "c": c, "h5": h5, "parts": parts, "slices": slices, "items": items}
+    if reads or (_ROT[0] % 4 == 0):
+        case["np_items"] = True          # the int items are read a second time as numpy integers
     if rounds is not None:
         case["rounds"] = rounds
         case["rewrap"] = rewrap
@@ -218,6 +227,7 @@ def gen_cases(tier, rng):
     from checks import corpus
     cases = list(corpus.load("C01"))
     quick = tier == "quick"
+    _ROT[0] = 0
     # ---- readers: every int / slice item (None, negative, out-of-range bounds, steps of either sign, step 0) on small
     #      fields of every kind and both backings; and the Lean SPEC of Python indexing against Python itself -------
     rmax = 4 if quick else 6
@@ -227,7 +237,7 @@ def gen_cases(tier, rng):
     for n in range(rmax + 1):
         reads = all_reads(n) if (n <= 3 or not quick) else all_reads(n, steps=(None, 2, -1, -2))
         for h5 in (False, True):
-            for c in (2, 50):
+            for c in ((2,) if h5 else (2, 50)):
                 cases.append(mk_indexed(c, h5, [rseq[:1], rseq[1:n]] if n else [], reads=reads, tag="readers"))
             for kind, dtype, strlen in rkinds:
                 vals = extreme_values(kind, dtype, strlen)
@@ -427,7 +437,8 @@ def _indexed_reads(e, data, case):
             "slices": [_try(e, lambda x=x: _hexs(data[_sl(x)])) for x in case["slices"]],
             "items": [_try(e, lambda i=i: _hexr(data[i])) for i in case["items"]],
             # the same rows named by numpy integers (what `for i in np.arange(n)` hands over)
-            "items_np": [_try(e, lambda i=i: _hexr(data[np.int64(i)])) for i in case["items"] if abs(i) < 2**62]}
+            "items_np": [_try(e, lambda i=i: _hexr(data[np.int64(i)])) for i in case["items"] if abs(i) < 2**62]
+            if case.get("np_items") else None}
 
 
 def _open_h5(e):
@@ -658,7 +669,7 @@ def impl_dispatch(e, case):
 # ------------------------------------------------------------------------------------------------------------------
 
 def to_model(case):
-    m = {k: v for k, v in case.items() if not k.startswith("_") and k not in ("write", "key_names", "nformat")}
+    m = {k: v for k, v in case.items() if not k.startswith("_") and k not in ("write", "key_names", "nformat", "np_items")}
     if "rewrap" in m:
         m["rewrap"] = bool(m["rewrap"])          # "reopen" is a new writer object on the persisted arrays
     if os.environ.get("VERIF_C01_READER") == "asFound":
